@@ -22,6 +22,8 @@ pub struct PropSpec {
     pub thorough_boost: f64,
 }
 
+/// limb-pattern keys x 8 key codecs + edge-encoding keys x 2 groups x 8 key codecs
+const GRID_KEYS: u64 = 1296 * 8 + ((crate::env::EDGE_SCALARS_G1.len() + crate::env::EDGE_SCALARS_G2.len()) as u64) * 16;
 /// every large framed-size boundary (sc_crypt::big_lens)
 const BIG_LENS: u64 = 161;
 /// (group, scheme) x every composite-boundary message length (env::composite_lens)
@@ -85,9 +87,9 @@ pub fn spec(id: &str) -> Option<PropSpec> {
             vec!["cur-blst"],
         )),
         "C01" => Some(base(
-            vec![cs(&SIGN, "grid", 1368, 1368 * 3, true), cs(&SIGN, "grid-lengths", COMPOSITE_CELLS, COMPOSITE_CELLS * 3, true), cs(&SIGN, "grid-keys", 1296 * 8, 1296 * 8 * 3, true), cs(&SIGN, "retry-restart", 600, 12000, false)],
+            vec![cs(&SIGN, "grid", 1368, 1368 * 3, true), cs(&SIGN, "grid-lengths", COMPOSITE_CELLS, COMPOSITE_CELLS * 3, true), cs(&SIGN, "grid-keys", GRID_KEYS, GRID_KEYS * 3, true), cs(&SIGN, "retry-restart", 600, 12000, false)],
             "cases = (group, scheme, key class {1, 2, r-2, r-1, hash-derived, seeded random}, message-length class, key codec on disk, wire codec, fault-script length); \
-             class `grid-keys` enumerates 1296 limb-pattern keys (each 64-bit word of the scalar one of 0, 1, 0x80, 2^56, 2^63, 2^64-1) x the 8 key codecs; class `grid-lengths` enumerates (group, scheme) x every composite-boundary length (a power of two, hash-block or XOF-rate multiple minus a 48-/96-byte key prefix or a 1-3 byte length prefix, -1/0/+1: 4000, 4048, 16288, ...); class `grid` enumerates every key class x length class (0,1,31,32,33,127,128,129,255,256,257,4 KiB,16382,16383,16384,64 KiB,40,100 and the hash block / XOF rate boundaries 7,8,15,16,17,23,24,55,56,63,64,65,119,120,167,168,169,336) x scheme x group; \
+             class `grid-keys` enumerates 1296 limb-pattern keys (each 64-bit word of the scalar one of 0, 1, 0x80, 2^56, 2^63, 2^64-1) x the 8 key codecs, then the edge-encoding keys (public key k*G whose compressed x-coordinate begins with the modulus' leading 32-bit word or with a zero word; found by a one-off exhaustive walk, re-verified at start-up) x both groups x the 8 key codecs; class `grid-lengths` enumerates (group, scheme) x every composite-boundary length (a power of two, hash-block or XOF-rate multiple minus a 48-/96-byte key prefix or a 1-3 byte length prefix, -1/0/+1: 4000, 4048, 16288, ...); class `grid` enumerates every key class x length class (0,1,31,32,33,127,128,129,255,256,257,4 KiB,16382,16383,16384,64 KiB,40,100 and the hash block / XOF rate boundaries 7,8,15,16,17,23,24,55,56,63,64,65,119,120,167,168,169,336) x scheme x group; \
              non-trivial = a run with at least one transport/crash fault (retries, duplicates, restarts with key reload)",
             vec!["cur-blst"],
         )),
@@ -198,6 +200,13 @@ pub fn spec(id: &str) -> Option<PropSpec> {
                     cs(&POK, "ts-tamper", 300, 6000, false),
                     cs(&POK, "ts-future", 100, 2000, false),
                     cs(&POK, "interactive-tamper", 100, 2000, false),
+                    cs(&IDENT, "family", 12, 120, false),
+                    cs(&IDENT, "agg-positions", 12, 120, false),
+                    cs(&THRESH, "dealer-shapes", 4, 20, false),
+                    cs(&THRESH, "extremes", 8, 78, false),
+                    cs(&CRYPT, "eg-extremes", 8, 78, false),
+                    cs(&CRYPT, "td-extremes", 8, 78, false),
+                    cs(&SIGN, "grid-keys", 400, 4000, false),
                 ],
                 "every library call made by any party in any scenario is monitored (unwinding = violation, recorded with file:line; a worker without progress for 120 s = loop). Cases = hostile-input runs: every truncation length, bit flips, extensions and hex-digit corruption of valid encodings of all 28 types in all codecs followed by every accessor of whatever decoded; valid signcryption / time-lock envelopes around attacker-chosen framing bytes; 14 timestamp x 9 timeout x 5 clock-skew classes; all 256 byte-OR values of the zero test; plus the tamper/Byzantine classes of the other scenarios. Everything runs in the release profile and again in a profile with debug assertions and overflow checks. All cases non-trivial.",
                 vec!["cur-blst (release)", "cur-blst (checked: debug-assertions + overflow-checks)"],
